@@ -242,7 +242,8 @@ def classify_rejects(rej_evs, dpath, tag="c09cl"):
     ("KNOWN", [keys]) | ("UNNAMED", msg) | ("VIOLATION", msg)"""
     if not rej_evs:
         return []
-    cl, _ = vlib.tlc_validate_sharded(IMPL, rej_evs, tag=tag, env={"DOCS": dpath, "MODE": "classify"}, stateless=True, timeout=3000)
+    cl, _ = vlib.tlc_validate_sharded(IMPL, rej_evs, shards=min(vlib.NCPU, len(rej_evs) // 150 + 1), tag=tag,
+                                      env={"DOCS": dpath, "MODE": "classify"}, stateless=True, timeout=3000)
     by = {c["line"]: c["msg"] for c in cl}
     out = []
     for k in range(len(rej_evs)):
